@@ -993,3 +993,258 @@ pub mod transport {
         c01_icmpv6_slice = icmpv6_slice; unwind 4,
     }
 }
+
+// =============================================================== whole packets (thorough tier)
+
+pub mod packet {
+    use super::*;
+
+    fn touch_link(s: &[u8], l: &LinkSlice) {
+        match l {
+            LinkSlice::Ethernet2(e) => {
+                within!(s, e.slice());
+                within!(s, e.payload_slice());
+                sink(e.to_header());
+            }
+            LinkSlice::LinuxSll(l) => {
+                within!(s, l.slice());
+                within!(s, l.payload_slice());
+                within!(s, l.sender_address());
+                sink(l.to_header());
+            }
+            LinkSlice::EtherPayload(e) => touch_ether_payload(s, e),
+            LinkSlice::LinuxSllPayload(e) => {
+                within!(s, e.payload);
+            }
+        }
+        sink(l.to_header());
+        if let Some(p) = l.ether_payload() {
+            touch_ether_payload(s, &p);
+        }
+    }
+
+    fn touch_transport(s: &[u8], t: &TransportSlice) {
+        match t {
+            TransportSlice::Udp(u) => super::transport::touch_udp(s, u),
+            TransportSlice::Tcp(t) => {
+                within!(s, t.slice());
+                within!(s, t.header_slice());
+                within!(s, t.payload());
+                within!(s, t.options());
+                sink((t.source_port(), t.destination_port(), t.sequence_number(), t.data_offset(), t.window_size()));
+            }
+            TransportSlice::Icmpv4(i) => {
+                within!(s, i.slice());
+                within!(s, i.payload());
+                sink(i.header());
+            }
+            TransportSlice::Icmpv6(i) => {
+                within!(s, i.slice());
+                within!(s, i.payload());
+                sink(i.header());
+            }
+        }
+    }
+
+    fn touch_sliced(s: &[u8], p: &SlicedPacket) {
+        if let Some(l) = &p.link {
+            touch_link(s, l);
+        }
+        let mut i = 0;
+        while i < p.link_exts.len() {
+            match &p.link_exts[i] {
+                LinkExtSlice::Vlan(v) => {
+                    within!(s, v.slice());
+                    within!(s, v.payload_slice());
+                    sink(v.to_header());
+                }
+                LinkExtSlice::Macsec(m) => {
+                    touch_macsec_header(s, &m.header);
+                    if let Some(e) = m.ether_payload() {
+                        touch_ether_payload(s, &e);
+                    }
+                }
+            }
+            sink(p.link_exts[i].header_len());
+            i += 1;
+        }
+        match &p.net {
+            Some(NetSlice::Ipv4(v4)) => {
+                touch_ipv4_header(s, &v4.header());
+                if let Some(a) = v4.extensions().auth {
+                    touch_auth(s, &a);
+                }
+                touch_ip_payload(s, v4.payload());
+            }
+            Some(NetSlice::Ipv6(v6)) => {
+                touch_ipv6_header(s, &v6.header());
+                touch_ipv6_exts(s, v6.extensions());
+                touch_ip_payload(s, v6.payload());
+            }
+            Some(NetSlice::Arp(a)) => {
+                within!(s, a.slice());
+                within!(s, a.target_protocol_addr());
+                sink(a.to_packet().packet_len());
+            }
+            None => {}
+        }
+        if let Some(t) = &p.transport {
+            touch_transport(s, t);
+        }
+        sink(p.payload_ether_type());
+        if let Some(e) = p.ether_payload() {
+            touch_ether_payload(s, &e);
+        }
+        if let Some(ip) = p.ip_payload() {
+            touch_ip_payload(s, ip);
+        }
+        sink(p.is_ip_payload_fragmented());
+        sink(p.vlan().is_some());
+        sink(p.vlan_ids().len());
+    }
+
+    fn touch_lax_sliced(s: &[u8], p: &LaxSlicedPacket) {
+        if let Some(l) = &p.link {
+            touch_link(s, l);
+        }
+        let mut i = 0;
+        while i < p.link_exts.len() {
+            match &p.link_exts[i] {
+                LaxLinkExtSlice::Vlan(v) => {
+                    within!(s, v.slice());
+                    within!(s, v.payload_slice());
+                }
+                LaxLinkExtSlice::Macsec(m) => {
+                    touch_macsec_header(s, &m.header);
+                    if let Some(e) = m.ether_payload() {
+                        touch_lax_ether_payload(s, &e);
+                    }
+                }
+            }
+            sink(p.link_exts[i].header_len());
+            sink(p.link_exts[i].to_header());
+            i += 1;
+        }
+        match &p.net {
+            Some(LaxNetSlice::Ipv4(v4)) => {
+                touch_ipv4_header(s, &v4.header());
+                if let Some(a) = v4.extensions().auth {
+                    touch_auth(s, &a);
+                }
+                touch_lax_ip_payload(s, v4.payload());
+            }
+            Some(LaxNetSlice::Ipv6(v6)) => {
+                touch_ipv6_header(s, &v6.header());
+                touch_ipv6_exts(s, v6.extensions());
+                touch_lax_ip_payload(s, v6.payload());
+            }
+            Some(LaxNetSlice::Arp(a)) => {
+                within!(s, a.slice());
+                within!(s, a.target_protocol_addr());
+            }
+            None => {}
+        }
+        if let Some(t) = &p.transport {
+            touch_transport(s, t);
+        }
+        if let Some(e) = p.ether_payload() {
+            touch_lax_ether_payload(s, &e);
+        }
+        if let Some(ip) = p.ip_payload() {
+            touch_lax_ip_payload(s, ip);
+        }
+        sink(p.vlan().is_some());
+        sink(p.vlan_ids().len());
+    }
+
+    pub fn sliced<const N: usize, const START: u8>() {
+        let t = Tight::<N>::new(any_le(N));
+        let s = t.slice();
+        let r = match START {
+            0 => SlicedPacket::from_ethernet(s),
+            1 => SlicedPacket::from_linux_sll(s),
+            2 => SlicedPacket::from_ether_type(EtherType(any()), s),
+            _ => SlicedPacket::from_ip(s),
+        };
+        match r {
+            Ok(p) => {
+                witness!(p.transport.is_some(), "ok_transport");
+                touch_sliced(s, &p);
+            }
+            Err(e) => {
+                witness!(true, "err");
+                core::mem::forget(e);
+            }
+        }
+    }
+
+    pub fn lax_sliced<const N: usize, const START: u8>() {
+        let t = Tight::<N>::new(any_le(N));
+        let s = t.slice();
+        let r = match START {
+            0 => LaxSlicedPacket::from_ethernet(s).ok(),
+            2 => Some(LaxSlicedPacket::from_ether_type(EtherType(any()), s)),
+            _ => LaxSlicedPacket::from_ip(s).ok(),
+        };
+        if let Some(p) = r {
+            witness!(p.stop_err.is_some() && p.net.is_some(), "stopped_behind_net");
+            touch_lax_sliced(s, &p);
+            core::mem::forget(p);
+        }
+    }
+
+    pub fn headers<const N: usize, const START: u8>() {
+        let t = Tight::<N>::new(any_le(N));
+        let s = t.slice();
+        let r = match START {
+            0 => PacketHeaders::from_ethernet_slice(s),
+            2 => PacketHeaders::from_ether_type(EtherType(any()), s),
+            _ => PacketHeaders::from_ip_slice(s),
+        };
+        match r {
+            Ok(p) => {
+                witness!(p.transport.is_some(), "ok_transport");
+                within!(s, p.payload.slice());
+                sink(p.vlan().is_some());
+                sink(p.vlan_ids().len());
+                core::mem::forget(p);
+            }
+            Err(e) => core::mem::forget(e),
+        }
+    }
+
+    pub fn lax_headers<const N: usize, const START: u8>() {
+        let t = Tight::<N>::new(any_le(N));
+        let s = t.slice();
+        let r = match START {
+            0 => LaxPacketHeaders::from_ethernet(s).ok(),
+            1 => LaxPacketHeaders::from_linux_sll(s).ok(),
+            2 => Some(LaxPacketHeaders::from_ether_type(EtherType(any()), s)),
+            _ => LaxPacketHeaders::from_ip(s).ok(),
+        };
+        if let Some(p) = r {
+            witness!(p.stop_err.is_some(), "stopped");
+            within!(s, p.payload.slice());
+            sink(p.vlan().is_some());
+            sink(p.vlan_ids().len());
+            core::mem::forget(p);
+        }
+    }
+
+    crate::harnesses! {
+        c01_pk_sliced_ethernet = sliced::<56, 0>; unwind 5,
+        c01_pk_sliced_sll = sliced::<56, 1>; unwind 5,
+        c01_pk_sliced_ether_type = sliced::<48, 2>; unwind 5,
+        c01_pk_sliced_ip = sliced::<56, 3>; unwind 5,
+        c01_pk_lax_sliced_ethernet = lax_sliced::<56, 0>; unwind 5,
+        c01_pk_lax_sliced_ether_type = lax_sliced::<48, 2>; unwind 5,
+        c01_pk_lax_sliced_ip = lax_sliced::<56, 3>; unwind 5,
+        c01_pk_headers_ethernet = headers::<56, 0>; unwind 5,
+        c01_pk_headers_ether_type = headers::<48, 2>; unwind 5,
+        c01_pk_headers_ip = headers::<56, 3>; unwind 5,
+        c01_pk_lax_headers_ethernet = lax_headers::<56, 0>; unwind 5,
+        c01_pk_lax_headers_sll = lax_headers::<56, 1>; unwind 5,
+        c01_pk_lax_headers_ether_type = lax_headers::<48, 2>; unwind 5,
+        c01_pk_lax_headers_ip = lax_headers::<56, 3>; unwind 5,
+    }
+}
